@@ -481,6 +481,14 @@ def unit_frame_rule():
                     bad.append(ast.unparse(node))
                 if isinstance(node, (ast.Global, ast.Nonlocal, ast.Import, ast.ImportFrom)):
                     bad.append(ast.unparse(node))
+                # a working copy `next_k` that is loaded from a slot is loaded from THAT slot's pending value (`slots[k].next`):
+                # loading `curr` would make the write-back with the full mask discard what another process queued in this delta
+                if isinstance(node, ast.Assign) and len(node.targets) == 1 and isinstance(node.targets[0], ast.Name) and \
+                        node.targets[0].id.startswith("next_") and isinstance(node.value, ast.Attribute) and \
+                        isinstance(node.value.value, ast.Subscript) and getattr(node.value.value.value, "id", None) == "slots":
+                    j = node.value.value.slice.value
+                    if node.targets[0].id != f"next_{j}" or node.value.attr != "next":
+                        bad.append(ast.unparse(node))
             ok = not bad
             obs.append({"name": f"frame-rule::{dname}::proc{k}", "kind": "post", "status": "proved" if ok else "refuted",
                         "backend": "rule", "time_s": 0.0,
